@@ -706,6 +706,22 @@ fn convert_qualified_var(
         }
     }
 
+    // A re-export (`pub use`) must not expose a private target: check the alias chain target
+    // the same way `convert_var` checks the target of a `use` alias.
+    if lookup_name != resolved_name
+        && let Some(&is_public) = ctx.module_info.visibility_map.get(&lookup_name)
+    {
+        let target_path = extract_path_from_mangled(lookup_name);
+        if !is_public && !ctx.is_within_module_hierarchy(&target_path) {
+            ctx.errors.push(Error::PrivateMemberAccess {
+                module_path: target_path[..target_path.len() - 1].to_vec(),
+                member: *target_path.last().unwrap(),
+                location: loc.clone(),
+            });
+            // Continue with the resolved name despite the error
+        }
+    }
+
     Expr::Var(lookup_name).into_id(loc)
 }
 
